@@ -8,6 +8,9 @@
 //!   ops: w (write_once Nonblock)  d<n> (peer reads up to n bytes)  s (into_progress)  r (resume)
 //!        W (write(Nonblock))  T (write(Duration 1ms))  F (finish: write(Nonblock)/drain loop)
 //!        A (finish: write_all with a draining thread)
+//!        X (give up: drop the context; panics by design after a partial write)  Q (give up: force_finish)
+//!   fill=1: the harness fills the socket with bytes of its own first, so that the first sendmsg gets EAGAIN at zero bytes
+//!   hv=6: a message that send_message refuses while marshalling the header (legal interface, illegal member)
 //! stdout, one line per case:
 //!   pre=<serials> | <result> | <result> ...
 //!   <result> := serial=<reported|-> total=<bytes_total> typ=<n> hdr=<hex of wire::marshal::marshal(msg, serial)>
@@ -65,6 +68,8 @@ struct Peer {
     bytes: Vec<u8>,
     fds: Vec<(u64, u64)>,
     ctrunc: bool,
+    /// bytes the harness itself put into the socket to fill it (they precede the message, are discarded)
+    junk: usize,
 }
 
 impl Peer {
@@ -98,8 +103,10 @@ impl Peer {
         if n == 0 && nf == 0 {
             return None;
         }
-        self.bytes.extend_from_slice(&buf[..n]);
-        Some((n, nf))
+        let j = self.junk.min(n);
+        self.junk -= j;
+        self.bytes.extend_from_slice(&buf[j..n]);
+        Some((n - j, nf))
     }
 
     /// read up to `max` bytes without blocking
@@ -115,6 +122,11 @@ impl Peer {
             }
         }
         (got, gotfds)
+    }
+
+    /// message bytes the kernel has accepted so far: read by the peer or still queued (without the filler)
+    fn acc(&self) -> usize {
+        self.bytes.len() + self.inq() - self.junk
     }
 
     /// bytes queued at the peer and not yet read
@@ -181,6 +193,14 @@ fn build_msg(kv: &HashMap<&str, &str>, pipes: &[(OwnedFd, OwnedFd)]) -> (Marshal
             dh.object = Some("/s".into());
             dh.interface = Some("org.example.Sig".into());
             MessageType::Signal
+        }
+        6 => {
+            // refused while the header is being marshalled: the interface is fine and already in the buffer
+            // when the member name is found to be illegal
+            dh.interface = Some("org.example.Iface".into());
+            dh.member = Some("not a member!".into());
+            dh.object = Some("/a/b".into());
+            MessageType::Call
         }
         5 => {
             // a header longer than one socket buffer chunk: the object path has plen characters
@@ -258,7 +278,7 @@ fn run_case(line: &str) -> String {
         let b = unsafe { BorrowedFd::borrow_raw(sfd) };
         setsockopt(&b, sockopt::SndBuf, &sndbuf).unwrap();
     }
-    let mut peer = Peer { stream: peer_stream, bytes: Vec::new(), fds: Vec::new(), ctrunc: false };
+    let mut peer = Peer { stream: peer_stream, bytes: Vec::new(), fds: Vec::new(), ctrunc: false, junk: 0 };
     let mut out = Vec::new();
     let pre_serials: Vec<String> = (0..pre).map(|_| conn.send.alloc_serial().get().to_string()).collect();
     out.push(format!("pre={}", if pre_serials.is_empty() { "-".to_string() } else { pre_serials.join(",") }));
@@ -273,6 +293,20 @@ fn run_case(line: &str) -> String {
         peer.bytes.clear();
         peer.fds.clear();
 
+        if kv.get("fill").map(|f| *f == "1").unwrap_or(false) {
+            // fill the socket with bytes of our own so that the first sendmsg of the message is refused (EAGAIN at zero bytes)
+            let chunk = [0xABu8; 512];
+            loop {
+                let r = unsafe {
+                    nix::libc::send(sfd, chunk.as_ptr() as *const nix::libc::c_void, chunk.len(), nix::libc::MSG_DONTWAIT)
+                };
+                if r <= 0 {
+                    break;
+                }
+                peer.junk += r as usize;
+            }
+        }
+        let mut abandoned = false;
         let mut log: Vec<String> = Vec::new();
         let mut reported: Option<u32> = None;
         let mut total = 0usize;
@@ -285,6 +319,7 @@ fn run_case(line: &str) -> String {
             let mut active: Option<SendMessageContext> = None;
             let mut suspended: Option<SendMessageState> = None;
             let wall = kv.get("api").map(|a| *a == "wall").unwrap_or(false);
+            let mut wall_refused = false;
             if wall {
                 // the public wrapper send_message_write_all: blocking, the kernel still cuts the message into
                 // short writes because the send buffer is small and the peer is emptied concurrently
@@ -296,10 +331,13 @@ fn run_case(line: &str) -> String {
                         reported = Some(s.get());
                         rustbus::wire::marshal::marshal(&msg, s, &mut expected_hdr).unwrap();
                         total = expected_hdr.len() + body.len();
-                        log.push(format!("M:ok@{}", peer.bytes.len() + peer.inq()));
+                        log.push(format!("M:ok@{}", peer.acc()));
+                    }
+                    Err(rustbus::connection::Error::MarshalError(_)) => {
+                        wall_refused = true;
                     }
                     Err(e) => {
-                        log.push(format!("M:X{:?}@{}", e, peer.bytes.len() + peer.inq()).replace([' ', ','], "_"));
+                        log.push(format!("M:X{:?}@{}", e, peer.acc()).replace([' ', ','], "_"));
                     }
                 }
                 send_err = true; // nothing more to do for this message: skip the script
@@ -318,10 +356,10 @@ fn run_case(line: &str) -> String {
             }
             let skip_script = send_err;
             if wall {
-                send_err = false;
+                send_err = wall_refused;
             }
             let mut ops: Vec<&str> = kv["script"].split(',').filter(|s| !s.is_empty()).collect();
-            if !ops.iter().any(|o| *o == "F" || *o == "A") {
+            if !ops.iter().any(|o| *o == "F" || *o == "A" || *o == "X" || *o == "Q") {
                 ops.push("F");
             }
             let mut acc_before = 0usize;
@@ -329,7 +367,7 @@ fn run_case(line: &str) -> String {
                 if skip_script {
                     break;
                 }
-                let done = reported.is_some();
+                let done = reported.is_some() || abandoned;
                 let entry: String = match op.as_bytes()[0] {
                     b'd' => {
                         let n: usize = op[1..].parse().unwrap();
@@ -397,10 +435,33 @@ fn run_case(line: &str) -> String {
                         }
                         None => "-".to_string(),
                     },
+                    b'X' | b'Q' => {
+                        // the caller gives the message up: X drops the context (legal when nothing was sent, a panic
+                        // by design after a partial write), Q is force_finish
+                        if let Some(p) = suspended.take() {
+                            active = Some(SendMessageContext::resume(unsafe { &mut *send_ptr }, &msg, p));
+                            log.push(format!("r@{}", peer.acc()));
+                        }
+                        match active.take() {
+                            Some(ctx) => {
+                                abandoned = true;
+                                if op == "Q" {
+                                    ctx.force_finish();
+                                    "Q".to_string()
+                                } else {
+                                    match std::panic::catch_unwind(std::panic::AssertUnwindSafe(move || drop(ctx))) {
+                                        Ok(()) => "X:ok".to_string(),
+                                        Err(_) => "X:panic".to_string(),
+                                    }
+                                }
+                            }
+                            None => "-".to_string(),
+                        }
+                    }
                     b'F' | b'A' => {
                         if let Some(p) = suspended.take() {
                             active = Some(SendMessageContext::resume(unsafe { &mut *send_ptr }, &msg, p));
-                            log.push(format!("r@{}", peer.bytes.len() + peer.inq()));
+                            log.push(format!("r@{}", peer.acc()));
                         }
                         let ctx0 = active.take().unwrap();
                         if op == "A" {
@@ -444,7 +505,7 @@ fn run_case(line: &str) -> String {
                     }
                     _ => "?".to_string(),
                 };
-                let acc = peer.bytes.len() + peer.inq();
+                let acc = peer.acc();
                 let _ = acc_before;
                 acc_before = acc;
                 log.push(format!("{}@{}", entry, acc));
@@ -466,7 +527,7 @@ fn run_case(line: &str) -> String {
                 break;
             }
         }
-        if mismatch.is_none() && expected.len() != peer.bytes.len() {
+        if mismatch.is_none() && expected.len() != peer.bytes.len() && !(abandoned && peer.bytes.len() < expected.len()) {
             mismatch = Some(cmp_len);
         }
         let extra = peer.bytes.len().saturating_sub(expected.len());
@@ -486,7 +547,7 @@ fn run_case(line: &str) -> String {
             MessageType::Invalid => 0,
         };
         out.push(format!(
-            "serial={} total={} typ={} hdr={} prefix={} bodylen={} bodycrc={} log={} peer_len={} peer_crc={} peer_hdr={} mismatch={} fds={} ctrunc={} extra={} senderr={}",
+            "serial={} total={} typ={} hdr={} prefix={} bodylen={} bodycrc={} log={} peer_len={} peer_crc={} peer_hdr={} mismatch={} fds={} ctrunc={} extra={} senderr={} abandoned={}",
             reported.map(|s| s.to_string()).unwrap_or("-".into()),
             total,
             typ,
@@ -503,6 +564,7 @@ fn run_case(line: &str) -> String {
             peer.ctrunc as u8,
             extra,
             send_err as u8,
+            abandoned as u8,
         ));
         drop(msg);
         drop(pipes);
